@@ -8,6 +8,7 @@ package pcapgo
 
 import (
 	"bufio"
+	"bytes"
 	"compress/gzip"
 	"encoding/binary"
 	"errors"
@@ -123,6 +124,30 @@ func (r *NgReader) readBytes(buffer []byte) (uint, error) {
 		}
 	}
 	return n, nil
+}
+
+// ngMaxPreallocate is the largest buffer allocated on the word of a length
+// field alone. Longer data is read into a buffer that grows as it arrives.
+const ngMaxPreallocate = 1 << 16
+
+// readData reads length bytes, into buf if it is large enough.
+func (r *NgReader) readData(length int, buf []byte) ([]byte, error) {
+	if length <= cap(buf) {
+		buf = buf[:length]
+		_, err := r.readBytes(buf)
+		return buf, err
+	}
+	if length <= ngMaxPreallocate {
+		buf = make([]byte, length)
+		_, err := r.readBytes(buf)
+		return buf, err
+	}
+	var grow bytes.Buffer
+	_, err := io.CopyN(&grow, r.r, int64(length))
+	if err == io.EOF {
+		err = io.ErrUnexpectedEOF
+	}
+	return grow.Bytes(), err
 }
 
 func (r *NgReader) discard(length int) error {
@@ -607,6 +632,12 @@ FIND_PACKET:
 			}
 		}
 	}
+	if r.ci.CaptureLength > r.ci.Length {
+		return fmt.Errorf("capture length exceeds original packet length: %d > %d", r.ci.CaptureLength, r.ci.Length)
+	}
+	if uint32(r.ci.CaptureLength) > r.currentBlock.length {
+		return fmt.Errorf("capture length exceeds block length: %d > %d", r.ci.CaptureLength, r.currentBlock.length)
+	}
 	if !r.options.WantMixedLinkType {
 		if r.ifaces[r.ci.InterfaceIndex].LinkType != r.linkType {
 			if err := r.discard(int(r.currentBlock.length)); err != nil {
@@ -708,8 +739,7 @@ func (r *NgReader) ReadPacketDataWithOptions() (data []byte, ci gopacket.Capture
 		ci.AncillaryData = make([]interface{}, 1)
 		ci.AncillaryData[0] = r.ancil[0]
 	}
-	data = make([]byte, r.ci.CaptureLength)
-	if _, err = r.readBytes(data); err != nil {
+	if data, err = r.readData(r.ci.CaptureLength, nil); err != nil {
 		return
 	}
 	r.currentBlock.length -= uint32(r.ci.CaptureLength)
@@ -754,16 +784,14 @@ func (r *NgReader) ZeroCopyReadPacketDataWithOptions() (data []byte, ci gopacket
 	if r.options.WantMixedLinkType {
 		ci.AncillaryData = r.ancil[:]
 	}
-	if cap(r.packetBuf) < ci.CaptureLength {
-		snaplen := int(r.ifaces[ci.InterfaceIndex].SnapLength)
-		if snaplen < ci.CaptureLength {
-			snaplen = ci.CaptureLength
-		}
+	if snaplen := int(r.ifaces[ci.InterfaceIndex].SnapLength); cap(r.packetBuf) < ci.CaptureLength && ci.CaptureLength <= snaplen {
 		r.packetBuf = make([]byte, snaplen)
 	}
-	data = r.packetBuf[:ci.CaptureLength]
-	if _, err = r.readBytes(data); err != nil {
+	if data, err = r.readData(ci.CaptureLength, r.packetBuf); err != nil {
 		return
+	}
+	if cap(data) > cap(r.packetBuf) {
+		r.packetBuf = data
 	}
 	r.currentBlock.length -= uint32(r.ci.CaptureLength)
 	padding := (4 - r.ci.CaptureLength&3) & 3
